@@ -265,7 +265,14 @@ pub fn extra_cases(prop: &str, seed: u64, first_id: usize, tier: Tier) -> Vec<(S
     match prop {
         "C07" => crate::gen_special::c07_cases(seed, first_id, tier.pick(80, 800)),
         "C06" => crate::gen_special::c06_shapes(first_id),
-        "C04" => crate::gen_special::c04_tables(seed, first_id, tier.pick(60, 600)),
+        "C04" => {
+            // dedicated tables, plus hierarchies in which a later base, not the first, has a table
+            // (the derived type's own block then needs its own pointer at offset 0)
+            let mut v = crate::gen_special::c04_tables(seed, first_id, tier.pick(60, 600));
+            let lb: Vec<_> = crate::gen_special::c06_later_base_shapes(first_id + v.len()).into_iter().filter(|c| c.2 == 8).collect();
+            v.extend(lb);
+            v
+        }
         "C15" => {
             let mut v = crate::gen_special::c15_cases(seed, first_id, tier.pick(80, 800));
             let sp: Vec<_> = crate::gen_special::shadow_programs(first_id + v.len()).into_iter().filter(|c| c.2 == 8).collect();
